@@ -125,7 +125,7 @@ class CartesianGrid(GridBase):
             )
             raise DimensionError(msg)
         else:
-            self._periodic = list(periodic)
+            self._periodic = [bool(p) for p in periodic]
 
         # determine the coordinates
         p1, p2 = self.cuboid.corners
